@@ -170,6 +170,41 @@ def run_e2e(rec):
         shutil.rmtree(root, ignore_errors=True)
 
 
+def run_e2e_nb(rec):
+    """NeighbourIndependent (specs/ConfigLayers.tla): the environment in effect for a test case is a function of ITS layers.
+    The test case under test is the SECOND of its document; the first one either has no inline configuration (it runs with
+    the document defaults) or configures every variable that is in effect for the second one with another value. Only the
+    second test case is judged (the first one's output is matched by a glob)."""
+    cli, tc, doc, fmt = rec["cli"], rec["tc"], rec["doc"], rec["fmt"]
+    case = e2e_case(rec)
+    if case is None or not any(l["env"][e] != "U" for l in (tc, doc) for e in ("X", "Y")) \
+            or any(l["scalar"][k] != "U" for l in (cli, tc, doc, fmt) for k in KEYS):
+        return "skip"
+    fm, inline, flags, command, exp, want_exit = case
+    eff = {e: highest([cli["env"][e], tc["env"][e], doc["env"][e], fmt["env"][e]]) for e in ("X", "Y")}
+    bad = []
+    for kind in ("plain", "inline"):
+        nb_inline = ""
+        if kind == "inline":
+            nb_inline = " {environment: {" + ", ".join(f'{e}: "{e}-n-val"' for e in ("X", "Y") if eff[e] != "U") + "}}"
+        root = tempfile.mkdtemp(prefix="scrut-verif-cfgnb-", dir=os.environ.get("VERIF_SCRATCH", "/tmp"))
+        try:
+            lines = (["---"] + fm + ["---", ""] if fm else []) \
+                + ["# neighbour", "", "```scrut" + nb_inline, "$ " + command, "X=* Y=* (glob)", "```", ""] \
+                + ["# t", "", "```scrut" + (" " + inline if inline else ""), "$ " + command] + exp + ["```", ""]
+            os.makedirs(os.path.join(root, "docs"))
+            path = os.path.join(root, "docs", "doc.md")
+            with open(path, "w") as f:
+                f.write("\n".join(lines))
+            code, out, err, wall, pid = scenario.run_scrut([path] + flags, root)
+            scenario.kill_group(pid)
+            if code != want_exit:
+                bad.append(f"after a test case {'with another inline value' if kind == 'inline' else 'without inline configuration'}: exit {code}, expected {want_exit}")
+        finally:
+            shutil.rmtree(root, ignore_errors=True)
+    return "ok" if not bad else "fail(" + "; ".join(bad) + ")"
+
+
 def run(prop, tier, replay=None):
     t0 = time.time()
     work = workdir(f"{prop}-{tier}")
@@ -194,7 +229,7 @@ def run(prop, tier, replay=None):
         # the harness does not compile against /repo any more: only the end-to-end leg is real; the library-level
         # observation is filled with the model's own value (and the check ends as a tool error unless that leg finds something)
         records = [{"ev": "Load", "id": i + 1, "cli": v["cli"], "tc": v["tc"], "doc": v["doc"], "fmt": v["fmt"], "model_eff": v["eff"],
-                    "obs": {"eff": v["eff"], "associative": True, "identity": True, "lists_ok": True, "e2e": "skip"}} for i, v in enumerate(vectors)]
+                    "obs": {"eff": v["eff"], "associative": True, "identity": True, "lists_ok": True, "e2e": "skip", "e2e_nb": "skip"}} for i, v in enumerate(vectors)]
     else:
         harness(["config-replay", "--vectors", vpath, "--records", rpath])
         records = read_ndjson(rpath)
@@ -202,9 +237,12 @@ def run(prop, tier, replay=None):
         for r, e in zip(records, ex.map(run_e2e, records)):
             r["obs"]["e2e"] = e if e in ("ok", "skip") else "fail"
             r["obs"]["e2e_detail"] = e
-    n_e2e = sum(1 for r in records if r["obs"]["e2e"] != "skip")
+        for r, e in zip(records, ex.map(run_e2e_nb, records)):
+            r["obs"]["e2e_nb"] = e if e in ("ok", "skip") else "fail"
+            r["obs"]["e2e_nb_detail"] = e
+    n_e2e = sum(1 for r in records if r["obs"]["e2e"] != "skip") + 2 * sum(1 for r in records if r["obs"]["e2e_nb"] != "skip")
     results, printed = tlc_validate_sharded("ConfigTrace", "ConfigTrace.cfg", records, work, shards=min(NCPU, 6),
-                                            slim=lambda r: {k: r[k] for k in ("ev", "id", "cli", "tc", "doc", "fmt")} | {"obs": {k: r["obs"][k] for k in ("eff", "associative", "identity", "lists_ok", "e2e")}})
+                                            slim=lambda r: {k: r[k] for k in ("ev", "id", "cli", "tc", "doc", "fmt")} | {"obs": {k: r["obs"][k] for k in ("eff", "associative", "identity", "lists_ok", "e2e", "e2e_nb")}})
     for r in results:
         tlc_must_pass(r, "ConfigTrace VAL")
     validated = sum(r.distinct - 1 for r in results)
@@ -235,6 +273,8 @@ def run(prop, tier, replay=None):
         if o["e2e"] == "fail":
             bad.append("end-to-end:" + ("environment" if any(r[l]["env"][e] != "U" for l in ("tc", "doc") for e in ("X", "Y")) else
                                         next((k for k in KEYS if any(r[l]["scalar"][k] != "U" for l in ("cli", "tc", "doc"))), "format-default")))
+        if o.get("e2e_nb") == "fail":
+            bad.append("end-to-end:environment:not-in-effect-after-a-test-case-that-ran-with-another-value-of-the-variable")
         for b in sorted(set(bad)) or ["unclassified"]:
             V.violation(b, WHAT, {"vector": {k: r[k] for k in ("cli", "tc", "doc", "fmt")}, "observed": o})
     code, nviol, known = V.finish()
